@@ -1,5 +1,6 @@
 import ChythonModel.Gen.PeriodicTable
 import ChythonModel.Spec.Iupac
+import ChythonModel.Model.C18Atom
 /-!
 # C18 — periodic table data are complete and mutually consistent
 
@@ -15,17 +16,11 @@ proved theorem is `mdl_in_distribution_partial`, which excludes exactly those sy
 full statement is proved with a concrete witness in `Findings/C18.lean`.
 -/
 namespace ChythonModel.Props.C18
-open ChythonModel.Gen ChythonModel.Spec
+open ChythonModel.Gen ChythonModel.Spec ChythonModel.Model.C18
 
-/-! ## lookups as the code performs them -/
+/-! ## lookups as the code performs them: `fromSymbol`, `fromNumber`, `keys` are the definitions of `Model/C18Atom.lean`
+(the ones `drv_c18` runs against the real lookups on every check) -/
 
-/-- `Element.from_symbol`: first subclass with that name. -/
-def fromSymbol (s : String) : Option ElemRow := periodicTable.find? (·.sym == s)
-
-/-- `Element.from_atomic_number`: `{x.atomic_number: x for x in subclasses}[n]` — the *last* row wins. -/
-def fromNumber (n : Nat) : Option ElemRow := periodicTable.reverse.find? (·.z == n)
-
-def keys (l : List (Nat × Nat)) : List Nat := l.map (·.1)
 def sameKeys (a b : List Nat) : Bool := a.all (b.contains ·) && b.all (a.contains ·)
 
 /-! ## clause 1: numbers 1…118, lookups mutually inverse, agreement with the standard table -/
